@@ -182,7 +182,28 @@ func escInflux(s string, set string) string {
 	return b.String()
 }
 
-func renderInflux(ms []*am) []byte {
+// unitMs is the length of a timestamp unit of the write API in milliseconds (0: finer than ms).
+var unitMs = map[string]int64{"": 1, "ms": 1, "us": 0, "ns": 0, "s": 1000, "m": msMinute, "h": msHour}
+
+// tsInUnit is the number a client that counts in `unit` writes for the millisecond timestamp ms.
+// The harness only sends timestamps the unit can express exactly.
+func tsInUnit(ms int64, unit string) int64 {
+	switch unit {
+	case "ns":
+		return ms * 1e6
+	case "us":
+		return ms * 1e3
+	}
+	u, ok := unitMs[unit]
+	if !ok || ms%u != 0 {
+		panic(fmt.Sprintf("harness: timestamp %d ms cannot be written in unit %q", ms, unit))
+	}
+	return ms / u
+}
+
+func renderInflux(ms []*am) []byte { return renderInfluxIn(ms, "ms") }
+
+func renderInfluxIn(ms []*am, unit string) []byte {
 	var b bytes.Buffer
 	for _, m := range ms {
 		if m.Wire != "" {
@@ -207,7 +228,7 @@ func renderInflux(ms []*am) []byte {
 			b.WriteString(strconv.FormatFloat(f.Value, 'g', -1, 64))
 		}
 		b.WriteByte(' ')
-		b.WriteString(strconv.FormatInt(m.TS, 10))
+		b.WriteString(strconv.FormatInt(tsInUnit(m.TS, unit), 10))
 		b.WriteByte('\n')
 	}
 	return b.Bytes()
@@ -242,9 +263,23 @@ func parse(f format, ms []*am, jk []junk, rc *reqCtx) (*metric.BrokerBatchRows, 
 	case fFlatRaw:
 		body = renderFlatRaw(ms, jk)
 	case fInflux:
-		body = renderInflux(ms)
+		body = renderInfluxIn(ms, rc.Unit)
 	}
-	req, err := http.NewRequest(http.MethodPost, "http://broker/api/v1/write?db=db&precision=ms", bytes.NewReader(body))
+	return parseBody(f, body, rc)
+}
+
+// parseBody hands a request body to the entry point of format f.
+func parseBody(f format, body []byte, rc *reqCtx) (*metric.BrokerBatchRows, error) {
+	url := "http://broker/api/v1/write?db=db&precision=ms"
+	if f == fInflux {
+		switch {
+		case rc.PrecAbsent:
+			url = "http://broker/api/v1/write?db=db"
+		case rc.Prec != "":
+			url = "http://broker/api/v1/write?db=db&precision=" + rc.Prec
+		}
+	}
+	req, err := http.NewRequest(http.MethodPost, url, bytes.NewReader(body))
 	if err != nil {
 		return nil, fmt.Errorf("harness: %w", err)
 	}
